@@ -118,16 +118,13 @@ def expectedLoopReads : List String :=
 
 /-- the `curr_target` / `loss_dict_list` / yield statements of `reconstruct_volumes`, in source order -/
 def expectedTargetFacts : List String :=
-  ["init curr_target=None",
-   "init loss_dict_list=[]",
-   "reset curr_target=None",
-   "output_abs=_process_output(output, scaling_factors, resolution=resolution, complex_axis=self._complex_dim)",
-   "if add_target: target_abs=_process_output(data['target'], scaling_factors, resolution=resolution, complex_axis=self._complex_dim)",
-   "alloc loss_dict_list.append(loss_dict)",
+  ["init[curr_target=None;loss_dict_list=[]]",
+   "TGT=_process_output(data['target'], SCALE, resolution=RES, complex_axis=self._complex_dim)",
+   "alloc loss_dict_list.append(ITER.data_dict)",
    "alloc if add_target: curr_target=curr_volume.clone()",
-   "write curr_volume[slice_counter:slice_counter + output_abs.shape[0], ...]=output_abs.cpu()",
-   "if add_target: write curr_target[slice_counter:slice_counter + output_abs.shape[0], ...]=target_abs.cpu()",
-   "yield (curr_volume, curr_target, reduce_list_of_dicts(loss_dict_list), filename) if add_target else (curr_volume, reduce_list_of_dicts(loss_dict_list), filename)"]
+   "if add_target: write curr_target[same window as curr_volume]=TGT.cpu()",
+   "yield when add_target: (curr_volume, curr_target, reduce_list_of_dicts(loss_dict_list), FILENAME)",
+   "yield when not add_target: (curr_volume, reduce_list_of_dicts(loss_dict_list), FILENAME)"]
 
 /-- attributes of `self`, globals and nonlocals **written** by the functions on the reconstruction path.
 `reconstruct_volumes`, `evaluate`, `_process_output`, `_compute_resolution`, `_get_filename_from_batch`,
